@@ -302,10 +302,17 @@ def format_prefactor(term: Term, backend: str) -> str:
     """Formats the prefactor for Python (einsum) or C++ (libtensor)."""
     # extract number and symbolic prefactor
     number_pref = term.prefactor
-    symbol_pref = " * ".join(
-        [obj.name for obj in term.objects if isinstance(obj.base, Symbol)
-         for _ in range(obj.exponent)]
-    )
+    symbol_pref = []
+    for obj in term.objects:
+        base, exponent = obj.base_and_exponent
+        if not isinstance(base, Symbol):
+            continue
+        if int(exponent) != exponent or exponent < 0:
+            raise NotImplementedError("Symbolic prefactors are only "
+                                      "implemented for positive integer "
+                                      f"exponents. Found: {obj}")
+        symbol_pref.extend(base.name for _ in range(int(exponent)))
+    symbol_pref = " * ".join(symbol_pref)
     # extract the sign
     if number_pref < 0:
         sign = "-"
